@@ -13,6 +13,7 @@ from quara.objects.qoperations import SetQOperations
 from quara.protocol.qtomography.standard.standard_qtomography import StandardQTomography
 from quara.protocol.qtomography.standard.standard_qpt import calc_c_qpt
 from quara.qcircuit.experiment import Experiment
+from quara.utils import matrix_util
 from quara.utils.number_util import to_stream
 
 
@@ -138,6 +139,42 @@ class StandardQmpt(StandardQTomography):
         is_ok_povms = self.is_all_same_composite_systems(self._experiment.povms)
 
         return is_ok_states and is_ok_povms
+
+    def _generate_matS(self):
+        # With on_para_eq_constraint=True the first row of the last HS matrix is not a variable:
+        # it is e0 minus the sum of the first rows of the other HS matrices, i.e. (const - S var).
+        squared_dim = self._template_qoperation.dim ** 2
+        matS = np.zeros((squared_dim, self.num_variables), dtype=np.float64)
+        for outcome in range(self._num_outcomes - 1):
+            start = outcome * squared_dim ** 2
+            matS[:, start : start + squared_dim] = np.eye(squared_dim)
+        return matS
+
+    def _calc_mse_linear_analytical_mode_qoperation(
+        self, qope: "QOperation", data_num_list: List[int]
+    ) -> np.float64:
+        val = self._calc_mse_linear_analytical_mode_var(qope, data_num_list)
+        if qope.on_para_eq_constraint:
+            # add the variance of the implied row: Tr[S V(v^{L}) S^T]
+            matS = self._generate_matS()
+            ScovST = matrix_util.calc_conjugate(
+                matS, self.calc_covariance_linear_mat_total(qope, data_num_list)
+            )
+            val = val + np.trace(ScovST)
+        return val
+
+    def calc_cramer_rao_bound(
+        self, var: Union[QOperation, np.ndarray], N: int, list_N: List[int]
+    ) -> np.ndarray:
+        val = self._calc_cramer_rao_bound(var, N, list_N)
+        if self.on_para_eq_constraint:
+            # add the bound for the implied row: Tr[S F^{-1} S^T]/N
+            matS = self._generate_matS()
+            weights = [tmp_N / N for tmp_N in list_N]
+            fisher = self.calc_fisher_matrix_total(var, weights)
+            ScovST = matrix_util.calc_conjugate(matS, np.linalg.inv(fisher))
+            val = val + np.trace(ScovST) / N
+        return val
 
     def generate_empi_dist(
         self,
